@@ -337,6 +337,18 @@ def run(ctx):
         trs.append(chain_events(ctx, lc, len(trs) + 1, s, ctx.pick(12, 20), ctx.seed * 1000 + i))
         if i % 3 == 0:
             trs.append(api_events(ctx, lc, len(trs) + 1, s, ctx.seed * 1000 + 500 + i))
+    # every move many times on the short, (nearly) fully charged peptides, the parent's delta-max cached: the class in which a child's
+    # own delta can exceed the heuristic delta-max, so that "carried over" and "freshly computed" can come apart
+    for n_, s in enumerate(starts[:11]):
+        for mv in MOVES:
+            for j in range(ctx.pick(12, 40)):
+                parent = lc.Sequence(s)
+                common.call(parent.deltaMax)
+                pcp, pdmax = cp_of(parent), parent.dmax
+                out = run_move(lc, parent, mv, set(), rngshim.Recorder(ctx.seed * 7919 + n_ * 97 + j, budget=1500))
+                ctx.evaluations += 1
+                if out[0] == "ok" and out[1] is not parent and hasattr(out[1], "seq"):
+                    postconditions(ctx, lc, {"move": mv, "seq": s, "frozen": [], "dmax_cached": True}, parent, s, pcp, out[1], [], mv, pdmax)
     # chains and API calls on sequences of more than 1000 residues
     for k_ in range(ctx.pick(2, 5)):
         long_ = common.random_sequences(ctx.rng, 1, 1100, 1001)[0]
